@@ -13,7 +13,7 @@ CliEnv::CliEnv(const Plan &p) : clockrng(p.seed, 4242, p.run) {
 	fs.add_dir("/w", 0755, 0, 0, 1000000000);
 	fs.add_dir("/w/x", 0755, 0, 0, 1000000000);
 	fs.add_dir("/w/x/y", 0755, u, u, 1000000000);
-	root_ino = fs.add_dir(cwd, 0755, u, u, 1000000000);
+	root_ino = fs.add_dir(cwd, (int) p.geti("rootmode", 0755), u, u, 1000000000);
 	fs.add_file("/w/a.lzh", 0644, 0, 0, p.geti("amtime", 946684800), Bytes());
 	if (!p.gets("arcname").empty()) fs.add_file(cwd + "/" + p.gets("arcname"), 0644, 0, 0, p.geti("amtime", 946684800), Bytes());
 	if (p.geti("canary", 0)) {
